@@ -124,7 +124,9 @@ def run(prog, rep):
                   where(un, st), witness="finalize, clean, finalize again with the target below a shared ancestor: the link resolves elsewhere")
     cl = prog.func("section.BaseSection.clean")
     cs = [c for c in calls_in(cl.node) if call_name(c) == "%s.unmerge" % cl.params[0]]
-    rep.check(len(cs) == 1 and unparse(cs[0].args[0]) == "%s._merged" % cl.params[0], "SIB-5",
+    from ..symtext import Expander as _Ex
+    clx = _Ex(cl, only_locations=True)
+    rep.check(len(cs) == 1 and clx.text(cs[0].args[0]) == "%s._merged" % cl.params[0], "SIB-5",
               "clean unmerges the remembered target", "self.unmerge(self._merged)", "clean does not unmerge self._merged", cl.where)
     mg = prog.func("section.BaseSection.merge")
     rem = [n for n in walk_no_nested(mg.node) if isinstance(n, ast.Assign)
